@@ -15,6 +15,23 @@ COMMON_ASSUME = [
 ]
 
 
+_HINT = re.compile(r"(ERR INCOMPLETE|\bINCOMPLETE:?)[ :]?(\d+|\?)")
+_REJ = re.compile(r"\b(HICKUP|UNRECOVERABLE)\b")
+
+
+def canon_reject(ans):
+    """the two rejection variants of DltParseError are one class ("rejection" / "an error")"""
+    return _REJ.sub("REJECT", ans)
+
+
+def canon(ans):
+    """What no property distinguishes is not compared: the two rejection variants of DltParseError
+    (the properties say "rejection" / "an error") and the value of an incomplete-size hint (its
+    bound, at least 1 and at most the bytes missing, is checked by the oracles of C05 and C19)."""
+    ans = re.sub(r"ERR INCOMPLETE \S+", "ERR INCOMPLETE", ans)
+    return _REJ.sub("REJECT", ans)
+
+
 def hexlen(tok):
     return (len(tok) - 1) // 2
 
@@ -39,7 +56,7 @@ class Cfg:
 
     def project_corr(self, ans):
         """projection compared between implementation and model (a_P)"""
-        return ans
+        return canon(ans)
 
 
 class C01(Cfg):
@@ -97,12 +114,12 @@ class C02(Cfg):
         if spec == "INCOMPLETE":
             return ans.startswith("ERR INCOMPLETE")
         if spec == "REJECT":
-            return ans.startswith("ERR HICKUP") or ans.startswith("ERR UNRECOVERABLE")
+            return ans.startswith("ERR HICKUP") or ans.startswith("ERR UNRECOVERABLE") or ans.startswith("ERR REJECT")
         return ans == spec
 
     def project_corr(self, ans):
-        # the needed-hint of an incomplete verdict is C05's subject
-        return "ERR INCOMPLETE" if ans.startswith("ERR INCOMPLETE") else ans
+        # the needed-hint of an incomplete verdict is C05's subject; rejection is one class
+        return canon(ans)
 
 
 class C03(Cfg):
@@ -431,7 +448,8 @@ class C07(Cfg):
         return req.split(" ", 1)[0] + ":" + ",".join(kinds)
 
     def spec_ok(self, req, ans, spec):
-        return ans == spec
+        # the property speaks of "an error": the two rejection variants are one class
+        return canon(ans) == canon(spec)
 
 
 class C08(C07):
